@@ -8,7 +8,13 @@ Under contract:
                                         group and ALL other columns are unchanged; without random_gauge nothing changes
   class-shape obligation                every attribute read on `self` in Data_K.UU_K / Data_K.degen is assigned in
                                         Data_K.__init__ or defined in the class hierarchy (so the documented option exists)
-  phases                                ph(R.(k+G)) == ph(R.k) for integer R, G: see C02 (every k-dependence enters through them)
+  periodicity                           the real R_to_k chain (C02 classes) at k and k+G, explicit k-list and FFT grid with shifted K-point,
+                                        derivative orders 0-2, symbolic data / k / centres: identical matrices
+  gauge covariance (formula level)      the real text of Velocity, InvMass, Omega, DerOmega, Spin, DerSpin, Morb_H, morb (internal / external
+                                        variants) on the real formula and Data_K.covariant / D_H / dEig_inv machinery, symbolic Hamiltonian-gauge
+                                        matrices with an exactly degenerate pair of bands: the traces over the degenerate group and over
+                                        the remaining band are unchanged when every matrix X is replaced by W^dagger X W, W an exact U(2)
+                                        rotation inside the group (what random_gauge does, by the UU_K unit)
 Bounded stand-in: evaluate_k at k vs k+G, and with random_gauge on a model with exact degeneracies (doubled spinless model),
 for energy, band gradients, Berry curvature (internal+external), spin, orbital moment.
 """
@@ -315,3 +321,107 @@ def _real_periodic_gauge(rng, n):
 
 Unit("C04", "evaluate_k periodic and random-gauge invariant [real]", concrete=_real_periodic_gauge,
      bounded_desc="random Hermitian 3-band System_R with AA/BB/CC matrices; k random, G in [-2,2]^3; energy, velocity, Berry curvature, orbital moment; atol 1e-7 relative")
+
+
+# ------------------------------------------------------------------ periodicity of the transforms (real R_to_k chain of C02)
+from fractions import Fraction      # noqa: E402
+from pyvc.core import lift      # noqa: E402
+from pyvc.phase import PhSum, phsum_eq      # noqa: E402
+
+
+@unit("C04", "periodicity: the interpolated matrices and their k-derivatives at k + G equal those at k", scope="shape:5 R-vectors, 2 bands, derivative orders 0-2; explicit k-list and FFT grid with shifted dK; symbolic data, k, centres", expect_min=2)
+def _periodic(U):
+    from contracts.C02 import build as build_fft, LATT, R_SETS, NW
+    from pyvc.npshim import sym_real_array
+    NPx, FFT, RV, g = build_fft(U)
+    Rs = R_SETS["B"]
+
+    def body():
+        der = ctx().choose(3, "derivative order")
+        tau = sym_real_array("tau", (NW, 3))
+        X = sym_cplx_array("X", (len(Rs), NW, NW))
+        k = [sreal("k0"), sreal("k1"), sreal("k2")]
+        G = [2, -1, 3]
+        kl = rnp.array([k, [k[j] + G[j] for j in range(3)], [k[0] - 1, k[1], k[2] + 5]], dtype=object)
+        rv = RV(lattice=LATT, shifts_left_red=tau, iRvec=Rs)
+        rv.set_fft_R_to_k(NK=None, num_wann=NW, k_list=kl)
+        out = rv.R_to_k(rv.apply_expdK(X.copy()), der=der, hermitian=False)
+        cl = [phsum_eq(out[(i,) + idx], out[(0,) + idx]) for i in (1, 2) for idx in rnp.ndindex(*out.shape[1:])]
+        U.ensure("explicit k-list: rows k + G (two different G) give exactly the matrices of row k", land(*cl))
+        outs = []
+        for shift in ([0, 0, 0], [1, -2, 1]):
+            rv2 = RV(lattice=LATT, shifts_left_red=tau, iRvec=Rs)
+            dK = rnp.array([k[j] + shift[j] for j in range(3)], dtype=object)
+            rv2.set_fft_R_to_k(NK=(2, 1, 3), num_wann=NW, fftlib="numpy", dK=dK)
+            outs.append(rv2.R_to_k(rv2.apply_expdK(X.copy()), der=der, hermitian=False))
+        cl = [phsum_eq(outs[1][idx], outs[0][idx]) for idx in rnp.ndindex(*outs[0].shape)]
+        U.ensure("FFT grid: shifting the K-point by a reciprocal lattice vector changes nothing at any grid point", land(*cl))
+    U.run(body, check_feasible=False)
+    U.external("external DFT contract and ph(n) = 1 for integer n (C02)")
+
+
+# ------------------------------------------------------------------ gauge covariance at the formula level (real formula code)
+def _block_unitary():
+    """1 (+) W with W an exact 2x2 unitary: acts inside the degenerate group of bands 1, 2"""
+    f = Fraction
+    W = rnp.empty((3, 3), dtype=object)
+    for idx in rnp.ndindex(3, 3):
+        W[idx] = SCplx(0, 0)
+    W[0, 0] = SCplx(1, 0)
+    W[1, 1], W[1, 2] = SCplx(f(3, 5), 0), SCplx(0, f(4, 5))
+    W[2, 1], W[2, 2] = SCplx(0, f(4, 5)), SCplx(f(3, 5), 0)
+    return W
+
+
+@unit("C04", "gauge covariance: traces of the real formulas over a degenerate band group do not change under a unitary rotation inside the group",
+      scope="shape:3 bands, bands 1 and 2 degenerate, exact U(2) rotation; 10 formula variants; symbolic Hamiltonian-gauge matrices", expect_min=8, timeout_ms=60000,
+      replay=lambda mv, ob: _replay_gauge_formula(mv, ob), replay_once=True)
+def _gauge_formula(U):
+    import contracts.C08 as c8
+    reg, DK, tr, inv, TI, TO = c8.formula_world(U)
+
+    def body():
+        X = c8._ingredients()
+        W = _block_unitary()
+        Wd = rnp.array([[W[b, a].conj() for b in range(3)] for a in range(3)], dtype=object)
+
+        def rotated(A):
+            B = rnp.empty(A.shape, dtype=object)
+            for idx in rnp.ndindex(*A.shape):
+                ik, a, b = idx[:3]
+                acc = SCplx(0, 0)
+                for a2 in range(3):
+                    for b2 in range(3):
+                        acc = acc + Wd[a, a2] * SCplx.of(A[(ik, a2, b2) + idx[3:]]) * W[b2, b]
+                B[idx] = acc
+            return B
+
+        def mk(rot):
+            d = DK.__new__(DK)
+            d._covariant_quantities, d._bar_quantities = {}, {}
+            d.force_internal_terms_only = False
+            d.E_K = rnp.array([[0.0, 1.5, 1.5]])                  # bands 1 and 2 exactly degenerate
+            Y = {key: (rotated(A) if rot else A) for key, A in X.items()}
+            d.Xbar = lambda name, der=0: Y[(name, der)].copy()
+            return d
+        d0, d1 = mk(False), mk(True)
+        for cls, kw in [f_ for f_ in c8.FORMULAS if f_[0] not in ("Der3E",)]:
+            f0, f1 = reg[cls](d0, **kw), reg[cls](d1, **kw)
+            cl = []
+            for inn, out in ((rnp.array([1, 2]), rnp.array([0])), (rnp.array([0]), rnp.array([1, 2]))):
+                t0, t1 = rnp.asarray(f0.trace(0, inn, out)), rnp.asarray(f1.trace(0, inn, out))
+                if t0.shape != t1.shape:
+                    cl.append(lift(0) == 1)
+                    continue
+                for idx in rnp.ndindex(*t0.shape):
+                    cl.append(lift(SCplx.of(t1[idx]).re) == lift(SCplx.of(t0[idx]).re))
+            label = "%s%s" % (cls, " (%s)" % ", ".join("%s=%s" % kv for kv in kw.items()) if kw else "")
+            U.ensure("%s: trace over the degenerate group and over the remaining band unchanged by the rotation" % label, land(*cl))
+    U.run(body, check_feasible=False)
+    U.assumption("random_gauge rotates the eigenvectors of a degenerate group by one unitary matrix (UU_K unit above), hence every Hamiltonian-gauge matrix X becomes W^dagger X W")
+
+
+def _replay_gauge_formula(mv, ob):
+    import random
+    r = _real_periodic_gauge(random.Random(4), 10)
+    return dict(reproduced=bool(r["failures"]), input="installed evaluate_k with random_gauge on a model with exact degeneracies", failed=r["failures"][:3])
